@@ -1,1 +1,810 @@
-"""placeholder"""
+"""Engine `cliworld`, child side: run the real command line entry point inside the simulated world,
+fault-free first (the twin), then once per fault plan, and judge every run against the reference model.
+
+Rules (DESIGN.md 4.3):  R1-R6 -> C15,  S1-S4 -> C13,  Z1-Z3 -> C14.
+Every rule is evaluated on every run; each violation is tagged with its property.
+"""
+import hashlib
+import os
+import sys
+
+from sim import climodel, seeds, wire, world
+from sim.world import FAULT_KINDS, INPUT_SIDE, WRITE_PHASE
+
+
+def _b(x, limit=160):
+    if x is None:
+        return None
+    if len(x) > limit:
+        return wire.enc_bytes(x[:limit]) + '...(%d bytes)' % len(x)
+    return wire.enc_bytes(x)
+
+
+def files_of(snap):
+    return dict((k, v[1]) for k, v in snap.items() if v[0] == 'f')
+
+
+def snap_digest(snap):
+    h = hashlib.sha256()
+    for k in sorted(snap):
+        v = snap[k]
+        h.update(k.encode('utf-8', 'surrogateescape') + b'\0' + v[0].encode())
+        if v[0] == 'f':
+            h.update(hashlib.sha256(v[1]).digest() + bytes([v[2] & 0xFF, (v[2] >> 8) & 0xFF]))
+        elif v[0] == 'l':
+            h.update(v[1].encode('utf-8', 'surrogateescape'))
+        else:
+            h.update(bytes([v[1] & 0xFF, (v[1] >> 8) & 0xFF]))
+    return h.hexdigest()
+
+
+class Cmd(object):
+    def __init__(self, c):
+        self.argv = c['argv']
+        self.flags = c.get('flags', [])
+        self.preserve = c.get('preserve', [])
+        self.paths = c.get('paths', [])
+        self.in_place = bool(c.get('in_place'))
+        self.output = c.get('output')
+        self.stdin = wire.dec_bytes(c['stdin']) if c.get('stdin') is not None else None
+        self.extra = c.get('extra', [])            # unknown flags etc.
+        self.declared_invalid = c.get('invalid')
+
+    def mode(self):
+        if self.in_place:
+            return 'in-place'
+        if self.output is not None:
+            return 'output'
+        return 'stdout'
+
+
+class WorldJob(object):
+    def __init__(self, spec):
+        self.spec = spec
+        self.prop = spec.get('prop')
+        scratch = os.environ.get('VERIF_SCRATCH') or '/dev/shm/pmv-x'
+        os.makedirs(scratch, exist_ok=True)
+        self.root = os.path.join(scratch, 'r%d' % os.getpid())
+        self.cmd = Cmd(spec['cmd'])
+        self.cwd_rel = spec.get('cwd', '')
+        self.env = dict(spec.get('env') or {})
+        self.listing_seed = spec.get('listing_seed', 0)
+        self.model = climodel.Model()
+        self.kw = climodel.kwargs_documented(self.cmd.flags, self.cmd.preserve)
+        self.violations = []
+        self.notes = []
+        self.stats = {'runs': 0, 'events': 0, 'faults_fired': {}, 'faults_not_fired': 0, 'restarts': 0,
+                      'real_crash_crosschecks': 0, 'subprocess_crosschecks': 0, 'visits': 0, 'twin_visits': 0}
+        self.probes = {}
+        self.flag_discriminated = {}
+        self.digest = hashlib.sha256()
+        import python_minifier.__main__ as pm_main
+        self.entry = pm_main.main
+
+    # ------------------------------------------------------------------------------- helpers
+    def probe(self, name, n=1):
+        self.probes[name] = self.probes.get(name, 0) + n
+
+    def vio(self, prop, rule, summary, run_desc, key=None, **detail):
+        k = {'rule': rule}
+        if key:
+            k.update(key)
+        self.violations.append({'property': prop, 'rule': rule, 'key': k, 'summary': summary, 'run': run_desc, 'detail': detail})
+
+    def abs_cwd(self):
+        return os.path.join(self.root, self.cwd_rel) if self.cwd_rel else self.root
+
+    def resolve(self, path):
+        """path as the command sees it -> rel-to-root realpath (None when outside)"""
+        p = path.replace('{ROOT}', self.root)
+        if not os.path.isabs(p):
+            p = os.path.join(self.abs_cwd(), p)
+        rp = os.path.realpath(p)
+        if rp == self.root:
+            return ''
+        if rp.startswith(self.root + os.sep):
+            return rp[len(self.root) + 1:]
+        return None
+
+    def force(self, env):
+        return env.get('PYMINIFY_FORCE_BEST_EFFORT') == '1'
+
+    # ------------------------------------------------------------------------------- one execution
+    def fresh_tree(self):
+        world.rmtree(self.root)
+        world.build_tree(self.root, self.spec['tree'])
+
+    def run_once(self, env, faults, rebuild=True, real_crash=False):
+        if rebuild:
+            self.fresh_tree()
+        pre = world.snapshot(self.root)
+        if real_crash:
+            rec = self.run_forked(env, faults)
+        else:
+            rec = world.execute(self.entry, self.root, self.abs_cwd(), self.cmd.argv, self.full_env(env), self.cmd.stdin,
+                                self.listing_seed, faults)
+        post = world.snapshot(self.root)
+        self.stats['runs'] += 1
+        self.stats['events'] += len(rec['events'])
+        for f in rec['fired']:
+            k = f['ev'] + ':' + f['kind']
+            self.stats['faults_fired'][k] = self.stats['faults_fired'].get(k, 0) + 1
+        if faults and not rec['fired']:
+            self.stats['faults_not_fired'] += 1
+        self.digest.update(seeds.digest({
+            'exit': rec['exit'], 'exc': rec['exc'], 'crashed': rec['crashed'],
+            'ev': [[e['c'], e.get('n', e.get('op')), e.get('p'), e.get('fault')] for e in rec['events']],
+            'out': hashlib.sha256(rec['stdout_b']).hexdigest(), 'outt': rec['stdout_t'].replace(self.root, '{ROOT}'),
+            'post': snap_digest(post)}).encode())
+        return pre, rec, post
+
+    def full_env(self, env):
+        e = {'PYMINIFY_FORCE_BEST_EFFORT': None}
+        e.update(env)
+        return e
+
+    def run_forked(self, env, faults):
+        """Real process death: the command runs in a forked child that os._exit()s at the crash point;
+        events are streamed over a pipe so that they survive."""
+        import json
+        r, wfd = os.pipe()
+        pid = os.fork()
+        if pid == 0:
+            try:
+                os.close(r)
+                rec = world.execute(self.entry, self.root, self.abs_cwd(), self.cmd.argv, self.full_env(env), self.cmd.stdin,
+                                    self.listing_seed, faults, sink=wfd, real_crash=True)
+                wire.write_frame(wfd, {'c': 'end', 'exit': rec['exit'], 'exc': rec['exc']})
+            finally:
+                os._exit(0)
+        os.close(wfd)
+        data = b''
+        while True:
+            c = os.read(r, 1 << 16)
+            if not c:
+                break
+            data += c
+        os.close(r)
+        _, st = os.waitpid(pid, 0)
+        events, std, fired, mods = [], [], [], []
+        exit_status, exc, crashed = None, None, False
+        for line in data.split(b'\n'):
+            if not line:
+                continue
+            ev = json.loads(line)
+            if ev['c'] == 'end':
+                exit_status, exc = ev['exit'], ev['exc']
+            elif ev['c'] == 'std':
+                payload = wire.dec_bytes(ev['data'])
+                std.append((ev['s'], ev['stream'], ev['typ'], payload if ev['typ'] == 'b' else payload.decode('utf-8', 'surrogatepass')))
+            else:
+                events.append(ev)
+                if ev['c'] == 'mod':
+                    mods.append(ev)
+                if 'fault' in ev:
+                    fired.append({'ev': ev['c'], 'n': ev['n'], 'kind': ev['fault'], 'p': ev.get('p'), 'rp': ev.get('rp'), 's': ev['s']})
+        if exit_status is None:
+            crashed = True
+            exit_status = os.WEXITSTATUS(st) if os.WIFEXITED(st) else 128 + os.WTERMSIG(st)
+        return {'exit': exit_status, 'exc': exc, 'crashed': crashed, 'events': events,
+                'fired': fired, 'mods': mods, 'outside': [],
+                'stdout_b': b''.join(p for (_, s, t, p) in std if s == 'stdout' and t == 'b'),
+                'stdout_t': ''.join(p for (_, s, t, p) in std if s == 'stdout' and t == 't'),
+                'stdout_seq': [(t, p) for (_, s, t, p) in std if s == 'stdout'],
+                'stdout_evs': [(sq, t, p) for (sq, s, t, p) in std if s == 'stdout'],
+                'stderr_len': 0}
+
+    # ------------------------------------------------------------------------------- validity (model side)
+    def model_invalid(self):
+        c = self.cmd
+        if c.extra:
+            return 'unknown-flag'
+        if not c.paths:
+            return 'missing-path'
+        if c.in_place and c.output is not None:
+            return 'in-place-with-output'
+        if '-' in c.paths and len(c.paths) != 1:
+            return 'stdin-with-other-paths'
+        if '-' in c.paths and c.in_place:
+            return 'stdin-in-place'
+        if len(c.paths) > 1 and not c.in_place:
+            return 'several-paths-without-in-place'
+        if len(c.paths) == 1 and c.paths[0] != '-' and not c.in_place:
+            p = c.paths[0].replace('{ROOT}', self.root)
+            if not os.path.isabs(p):
+                p = os.path.join(self.abs_cwd(), p)
+            if os.path.isdir(p):
+                return 'directory-without-in-place'
+        if climodel.is_invalid_combination(c.flags):
+            return 'class-attribute-with-no-remove-annotations'
+        return None
+
+    # ------------------------------------------------------------------------------- judging
+    def judge(self, pre, rec, post, env, run_desc, faulty):
+        """Judge one execution.  Returns info dict used by cross-run rules."""
+        c = self.cmd
+        force = self.force(env)
+        mode = c.mode()
+        info = {'visits': [], 'P': [], 'complete': False}
+        pre_f, post_f = files_of(pre), files_of(post)
+        fired = rec['fired'][0] if rec['fired'] else None
+        if len(rec['fired']) > 1:
+            self.notes.append('more than one fault fired in a run; judged by the first')
+        fkey = None
+        if fired is not None:
+            fkey = {'fault_event': fired['ev'], 'fault_kind': fired['kind'], 'mode': mode}
+
+        # ---- S4: invalid combinations are rejected before anything is read or written
+        invalid = self.model_invalid()
+        if invalid and not faulty:
+            bad = []
+            if rec['exit'] == 0:
+                bad.append('exit status 0')
+            if rec['stdout_b'] or rec['stdout_t']:
+                bad.append('%d bytes on stdout' % (len(rec['stdout_b']) + len(rec['stdout_t'])))
+            touched = [e for e in rec['events'] if e['c'] in ('open_w', 'opened_w', 'write', 'open_r', 'read', 'stdin_read')]
+            if touched:
+                bad.append('I/O before rejection: %s' % sorted(set(e['c'] for e in touched)))
+            if rec['mods']:
+                bad.append('modifying operations: %s' % [m['op'] for m in rec['mods']][:3])
+            if snap_digest(pre) != snap_digest(post):
+                bad.append('tree changed')
+            if bad:
+                self.vio('C13', 'S4', 'invalid combination (%s) not rejected cleanly: %s' % (invalid, '; '.join(bad)), run_desc,
+                         key={'invalid': invalid})
+            self.probe('invalid_' + invalid)
+            info['invalid'] = invalid
+            return info
+        if invalid:
+            return info
+
+        # ---- the path listing P (the command's own witness of what it visited)
+        if mode in ('in-place', 'output') and c.stdin is None:
+            P = [l for l in rec['stdout_t'].split('\n') if l != '']
+            if rec['stdout_b']:
+                self.vio('C13', 'S2', 'module bytes on stdout in %s mode (%d bytes)' % (mode, len(rec['stdout_b'])), run_desc, key={'mode': mode})
+            if rec['stdout_t'] and not rec['stdout_t'].endswith('\n') and not faulty:
+                self.vio('C13', 'S2', 'path listing does not end with a newline', run_desc, key={'mode': mode})
+        else:
+            P = None
+            if rec['stdout_t']:
+                self.vio('C13', 'S2', 'text mixed into stdout in %s mode: %r' % (mode, rec['stdout_t'][:80]), run_desc, key={'mode': mode})
+        info['P'] = P
+
+        # ---- V: the files the arguments point at (independent walk of the pre-state tree)
+        V = None
+        if c.stdin is None:
+            V = []
+            for rp in climodel.walk_model([p.replace('{ROOT}', self.root) for p in c.paths], self.abs_cwd()):
+                if rp == self.root or not rp.startswith(self.root + os.sep):
+                    V.append(None)
+                else:
+                    V.append(rp[len(self.root) + 1:])
+        out_rel = self.resolve(c.output) if c.output is not None else None
+        targets = set(v for v in (V or []) if v is not None)
+        if c.output is not None and out_rel is not None and mode == 'output':
+            targets = set([out_rel])       # "only the --output file otherwise"
+
+        # ---- walk the visits with the model
+        state = dict(pre_f)
+        visited_sinks = {}                 # rel -> list of visit indices
+        fail_at = None
+        inflight = None                    # {'sink': rel, 'before': bytes|None, 'after': bytes|None, 'phase': ...}
+        expected_stdout = None
+        visits = []
+        if c.stdin is not None:
+            visits = [('stdin', None)]
+        elif P is not None:
+            visits = [(p, self.resolve(p)) for p in P]
+        else:
+            # stdout mode, one path argument: the visit is implicit
+            visits = [(c.paths[0], self.resolve(c.paths[0]))]
+        fault_sq = fired['s'] if fired else None
+        for k, (shown, rp_in) in enumerate(visits):
+            content = c.stdin if c.stdin is not None else (state.get(rp_in) if rp_in is not None else None)
+            sink = rp_in if mode == 'in-place' else (out_rel if mode == 'output' else None)
+            last = k == len(visits) - 1
+            res = self.model.visit(content, self.kw, force)
+            self.stats['visits'] += 1
+            related = fired is not None and last and fired['ev'] != 'scandir' and fired['ev'] != 'stdout' and \
+                fired.get('rp') is not None and fired['rp'] in (rp_in, sink)
+            if fired is not None and last and fired['ev'] == 'stdout' and mode == 'stdout':
+                related = True
+            if related:
+                before = state.get(sink) if sink is not None else None
+                if res[0] == 'emit':
+                    after = res[1]
+                elif res[0] == 'keep':
+                    after = before if mode == 'in-place' else content
+                else:
+                    after = before
+                inflight = {'sink': sink, 'before': before, 'after': after, 'input': rp_in, 'res': res[0]}
+                break
+            visits_rec = {'path': shown, 'rp': rp_in, 'res': res[0], 'n_in': len(content) if content is not None else None}
+            if res[0] == 'fail':
+                fail_at = k
+                visits_rec['why'] = res[1]
+                info['visits'].append(visits_rec)
+                break
+            produced = res[1] if res[0] == 'emit' else content
+            visits_rec['n_out'] = len(produced)
+            if mode == 'in-place':
+                if res[0] == 'emit':
+                    state[rp_in] = produced
+                visited_sinks.setdefault(rp_in, []).append(k)
+            elif mode == 'output':
+                if out_rel is not None:
+                    state[out_rel] = produced
+                    visited_sinks.setdefault(out_rel, []).append(k)
+            else:
+                expected_stdout = produced
+            info['visits'].append(visits_rec)
+        info['fail_at'] = fail_at
+        info['state'] = state
+
+        # ---- R1: the command visited only what it was pointed at
+        if P is not None and V is not None:
+            need = {}
+            for shown, rp in visits:
+                need[rp] = need.get(rp, 0) + 1
+            have = {}
+            for v in V:
+                have[v] = have.get(v, 0) + 1
+            extra = [rp for rp in sorted(need, key=str) if need[rp] > have.get(rp, 0)]
+            if extra:
+                self.vio('C15', 'R1', 'visited paths it was not pointed at (or more often than listed): %s' % extra[:4], run_desc,
+                         key={'what': 'visit-not-pointed-at'})
+            if not faulty and fail_at is None and rec['exit'] == 0:
+                miss = [rp for rp in sorted(have, key=str) if have[rp] > need.get(rp, 0)]
+                if miss:
+                    self.probe('expected_target_not_visited')
+                else:
+                    info['complete'] = True
+
+        # ---- R1: modifying operations only on targets (for entries that existed before the run)
+        for m in rec['mods']:
+            rp = m.get('rp')
+            if rp is None or rp not in pre:
+                continue
+            if rp not in targets:
+                self.vio('C15', 'R1', 'modifying operation %s on %s, which is not a target' % (m['op'], rp), run_desc,
+                         key={'what': 'modifying-op-on-non-target'})
+                break
+        if rec['outside']:
+            self.vio('C15', 'R1', 'write access outside the tree: %s' % rec['outside'][:3], run_desc, key={'what': 'outside'})
+
+        # ---- end state of every entry
+        write_phase = fired is not None and fired['ev'] in WRITE_PHASE
+        leftover = []
+        for rel in sorted(set(pre) | set(post)):
+            a, b = pre.get(rel), post.get(rel)
+            if a is not None and a[0] != 'f' or b is not None and b[0] != 'f':
+                # directories and links: must be identical, apart from a new file entry handled below
+                if a is None and b is not None and b[0] == 'f':
+                    pass
+                elif a != b:
+                    self.vio('C15', 'R1', 'entry %s changed type/target/mode: %r -> %r' % (rel, a and a[:2], b and (b[0], b[1] if b[0] != 'f' else '...')), run_desc,
+                             key={'what': 'structure'})
+                    continue
+                else:
+                    continue
+            want = state.get(rel)
+            got = post_f.get(rel)
+            if inflight is not None and rel == inflight['sink']:
+                continue
+            if want == got:
+                if a is not None and b is not None and a[0] == 'f' and a[2] != b[2] and rel not in targets:
+                    self.vio('C15', 'R1', 'mode of non-target %s changed %o -> %o' % (rel, a[2], b[2]), run_desc, key={'what': 'mode'})
+                continue
+            if rel in visited_sinks:
+                # a completed visit left something else than the model says
+                hit = self.alt_search(pre_f, rel, got, visits, mode, force, out_rel)
+                if not faulty:
+                    self.vio('C13', 'S1', '%s holds %s after %d visit(s); the API with the documented option values gives %s' % (
+                        rel, _b(got, 60), len(visited_sinks[rel]), _b(want, 60)), run_desc, key={'mode': mode}, alt_options=hit)
+                if hit is None:
+                    rule = 'R4' if faulty else 'R2'
+                    self.vio('C15', rule, '%s holds %s after %d completed visit(s): neither its original bytes nor a complete minified module (expected %s)' % (
+                        rel, _b(got, 60), len(visited_sinks[rel]), _b(want, 60)), run_desc, key=dict(fkey or {}, file_role='completed-visit'))
+                else:
+                    self.notes.append('C13-class discrepancy on %s: complete module under other options %s' % (rel, hit))
+                continue
+            if a is None and (write_phase or rec['crashed']) and inflight is not None and inflight['sink'] is not None and \
+                    os.path.dirname(rel) == os.path.dirname(inflight['sink']):
+                leftover.append(rel)
+                continue
+            role = 'not-yet-visited' if rel in targets else 'non-target'
+            if fail_at is not None and visits[fail_at][1] == rel:
+                role = 'failing-input'
+            rule = 'R3' if role == 'failing-input' else ('R4' if faulty and rel in targets else 'R1')
+            self.vio('C15', rule, '%s (%s) changed: %s -> %s' % (rel, role, _b(a[1] if a else None, 60), _b(got, 60)), run_desc,
+                     key=dict(fkey or {}, file_role=role))
+        if leftover:
+            self.probe('leftover_temp', len(leftover))
+
+        # ---- in-flight file of a faulty run
+        if inflight is not None:
+            sink = inflight['sink']
+            got = post_f.get(sink) if sink is not None else None
+            if fired['ev'] in INPUT_SIDE:
+                if sink is not None and got != inflight['before']:
+                    self.vio('C15', 'R5', 'fault %s:%s on %s (before anything was written): file changed %s -> %s' % (
+                        fired['ev'], fired['kind'], fired.get('rp'), _b(inflight['before'], 60), _b(got, 60)), run_desc,
+                        key=dict(fkey, file_role='inflight'))
+                if rec['exit'] == 0:
+                    self.vio('C15', 'R5', 'fault %s:%s on %s: exit status 0' % (fired['ev'], fired['kind'], fired.get('rp')), run_desc,
+                             key=dict(fkey, file_role='inflight', what='exit-status'))
+                if mode == 'stdout' and rec['stdout_b']:
+                    self.vio('C13', 'S3', 'input-side fault %s:%s but %d bytes reached stdout' % (fired['ev'], fired['kind'], len(rec['stdout_b'])), run_desc,
+                             key={'mode': mode})
+            elif fired['ev'] in WRITE_PHASE:
+                if sink is not None and got != inflight['before'] and got != inflight['after']:
+                    self.vio('C15', 'R6', 'fault %s:%s while writing %s: file is torn: %s (old %s, new %s)' % (
+                        fired['ev'], fired['kind'], sink, _b(got, 40), _b(inflight['before'], 40), _b(inflight['after'], 40)), run_desc,
+                        key=dict(fkey, file_role='inflight-write-target'))
+            # nothing may be visited after the fault
+            later = [e for e in rec['events'] if e['s'] > fault_sq and e['c'] in ('open_r', 'open_w', 'scandir')]
+            if later:
+                self.vio('C15', 'R5', 'the run went on after fault %s:%s: %s' % (fired['ev'], fired['kind'], [(e['c'], e.get('rp')) for e in later[:3]]),
+                         run_desc, key=dict(fkey, what='continued-after-fault'))
+        elif fired is not None and fired['ev'] in ('open_r', 'read', 'open_w') and fired.get('rp') is not None:
+            # a file fault that did not belong to the last listed visit: the listing is not telling the truth
+            self.probe('fault_not_on_last_listed_visit')
+            if rec['exit'] == 0:
+                self.vio('C15', 'R5', 'fault %s:%s on %s: exit status 0' % (fired['ev'], fired['kind'], fired.get('rp')), run_desc,
+                         key=dict(fkey, file_role='inflight', what='exit-status'))
+
+        # ---- failing input (R3) and exit status (S3)
+        if not faulty:
+            if fail_at is not None:
+                if rec['exit'] == 0:
+                    self.vio('C15', 'R3', 'input %s fails (%s) but exit status is 0' % (visits[fail_at][0], info['visits'][-1].get('why')), run_desc,
+                             key={'what': 'exit-status'})
+                    self.vio('C13', 'S3', 'the API fails on %s (%s) but the command exits 0' % (visits[fail_at][0], info['visits'][-1].get('why')), run_desc)
+                if fail_at != len(visits) - 1:
+                    self.vio('C15', 'R3', 'the run went on after failing input %s: then listed %s' % (visits[fail_at][0], [v[0] for v in visits[fail_at + 1:fail_at + 3]]),
+                             run_desc, key={'what': 'continued-after-failing-input'})
+                if mode == 'stdout' and rec['stdout_b']:
+                    self.vio('C13', 'S3', 'failing input but %d bytes were written to stdout' % len(rec['stdout_b']), run_desc)
+            else:
+                if rec['exit'] != 0:
+                    self.vio('C13', 'S3', 'every visit succeeds in the model but the command exits %d (%s)' % (rec['exit'], rec['exc']), run_desc)
+                if mode == 'stdout' and expected_stdout is not None and rec['stdout_b'] != expected_stdout:
+                    self.vio('C13', 'S1', 'stdout holds %s; the API with the documented option values gives %s' % (_b(rec['stdout_b'], 60), _b(expected_stdout, 60)),
+                             run_desc, key={'mode': mode})
+
+        # ---- Z1: never more bytes than were read (override off)
+        if not force:
+            if mode == 'stdout':
+                src = c.stdin if c.stdin is not None else (pre_f.get(visits[0][1]) if visits and visits[0][1] is not None else None)
+                if src is not None and len(rec['stdout_b']) > len(src):
+                    self.vio('C14', 'Z1', 'stdout received %d bytes for a %d byte source' % (len(rec['stdout_b']), len(src)), run_desc, key={'mode': mode})
+            elif mode == 'output' and out_rel is not None:
+                src = c.stdin if c.stdin is not None else (pre_f.get(visits[0][1]) if visits and visits[0][1] is not None else None)
+                got = post_f.get(out_rel)
+                if src is not None and got is not None and got != pre_f.get(out_rel) and len(got) > len(src):
+                    self.vio('C14', 'Z1', '--output file holds %d bytes for a %d byte source' % (len(got), len(src)), run_desc, key={'mode': mode})
+                if src is not None and got is not None and out_rel == (visits[0][1] if visits else None) and len(got) > len(src):
+                    self.vio('C14', 'Z1', '--output file (== input) grew from %d to %d bytes' % (len(src), len(got)), run_desc, key={'mode': mode})
+            else:
+                for rel in sorted(targets):
+                    a, b = pre_f.get(rel), post_f.get(rel)
+                    if a is not None and b is not None and len(b) > len(a):
+                        self.vio('C14', 'Z1', 'in-place file %s grew from %d to %d bytes' % (rel, len(a), len(b)), run_desc, key={'mode': mode})
+                        break
+        info['stdout_b'] = rec['stdout_b']
+        info['exit'] = rec['exit']
+        info['inflight'] = inflight
+        return info
+
+    def alt_search(self, pre_f, rel, got, visits, mode, force, out_rel):
+        """Is `got` a complete minified module of the visited input under some other option set?"""
+        if got is None:
+            return None
+        srcs = []
+        for shown, rp in visits:
+            sink = rp if mode == 'in-place' else out_rel
+            if sink == rel and rp is not None and pre_f.get(rp) is not None:
+                srcs.append(pre_f[rp])
+        if self.cmd.stdin is not None:
+            srcs.append(self.cmd.stdin)
+        for src in srcs[:2]:
+            if got == src:
+                return 'original-bytes'
+            for kw in climodel.alt_kwargs(self.kw):
+                r = self.model.visit(src, kw, True)
+                if r[0] == 'emit' and r[1] == got:
+                    return dict((k, v) for k, v in kw.items() if self.kw.get(k) != v) or 'same'
+                if r[0] == 'emit':
+                    r2 = self.model.visit(r[1], kw, True)
+                    if r2[0] == 'emit' and r2[1] == got:
+                        return {'twice': True}
+        return None
+
+    # ------------------------------------------------------------------------------- plans
+    def enumerate_faults(self, twin_rec):
+        plans = []
+        for e in twin_rec['events']:
+            kinds = FAULT_KINDS.get(e['c'])
+            if not kinds:
+                continue
+            if e['c'] == 'stdout' and self.prop != 'C14':
+                continue
+            for kind in kinds:
+                plans.append({'ev': e['c'], 'n': e['n'], 'kind': kind})
+        return plans
+
+    def run_all(self):
+        spec = self.spec
+        env0 = self.env
+        desc0 = {'env': env0, 'faults': [], 'restart': False}
+        only = spec.get('only')            # replay: restrict to one run descriptor
+        pre, rec, post = self.run_once(env0, None)
+        t0 = self.judge(pre, rec, post, env0, desc0, faulty=False)
+        self.stats['twin_visits'] = len(t0.get('visits', []))
+        self.stats['twin_events'] = len(rec['events'])
+        self.twin = (pre, rec, post, t0)
+        self.world_probes(pre, rec, t0)
+        if spec.get('flag_discrimination'):
+            self.discriminate(pre, t0)
+
+        # ---- environment twins (C14: Z2, Z3)
+        for variant in spec.get('env_twins', []):
+            self.env_twin(variant, pre, rec, post, t0)
+
+        # ---- subprocess cross-check of the fault-free run
+        if spec.get('subprocess_check'):
+            self.subprocess_check(env0, pre, rec, post, t0)
+
+        # ---- faults
+        fs = spec.get('faults')
+        plans = []
+        if fs == 'all':
+            plans = [[p] for p in self.enumerate_faults(rec)]
+            self.stats['fault_space'] = len(plans)
+            mp = spec.get('max_plans')
+            if mp and len(plans) > mp:
+                r = seeds.rng(spec.get('restart_seed', 0), 'plan-cap')
+                idx = sorted(r.sample(range(len(plans)), mp))
+                plans = [plans[i] for i in idx]
+                self.stats['fault_space_capped'] = 1
+            else:
+                self.stats['fault_space_enumerated'] = 1
+        elif isinstance(fs, dict) and 'sample' in fs:
+            allp = self.enumerate_faults(rec)
+            if fs.get('classes'):
+                allp = [p for p in allp if p['ev'] in fs['classes']]
+            r = seeds.rng(fs.get('seed', 0), 'fault-sample')
+            r.shuffle(allp)
+            plans = [[p] for p in allp[:fs['sample']]]
+        elif isinstance(fs, list):
+            plans = fs
+        self.stats['fault_plans'] = len(plans)
+        rr = seeds.rng(spec.get('restart_seed', 0), 'restart')
+        real_budget = spec.get('real_crash_checks', 0)
+        crash_plans = [i for i, p in enumerate(plans) if 'crash' in p[0]['kind']]
+        real_set = set()
+        if real_budget and crash_plans:
+            rc = seeds.rng(spec.get('restart_seed', 0), 'real-crash')
+            rc.shuffle(crash_plans)
+            real_set = set(crash_plans[:real_budget])
+        for i, plan in enumerate(plans):
+            do_restart = rr.random() < spec.get('restart_p', 0.0)
+            desc = {'env': env0, 'faults': plan, 'restart': do_restart}
+            if only is not None and only.get('faults') != plan:
+                continue
+            pre1, rec1, post1 = self.run_once(env0, plan)
+            if not rec1['fired']:
+                continue
+            self.judge(pre1, rec1, post1, env0, desc, faulty=True)
+            self.fault_probes(rec1, t0)
+            if i in real_set:
+                pre2, rec2, post2 = self.run_once(env0, plan, real_crash=True)
+                self.stats['real_crash_crosschecks'] += 1
+                if snap_digest(post2) != snap_digest(post1) or not rec2['crashed']:
+                    self.notes.append('HARNESS real crash and simulated crash disagree for %r (crashed=%s)' % (plan, rec2['crashed']))
+                    self.stats['real_crash_mismatch'] = self.stats.get('real_crash_mismatch', 0) + 1
+            if do_restart:
+                # restart on the surviving tree, no faults; judged as a fresh fault-free run from that state
+                self.stats['restarts'] += 1
+                torn = any(v['rule'] == 'R6' for v in self.violations if v['run'] is desc)
+                pre3, rec3, post3 = self.run_once(env0, None, rebuild=False)
+                d3 = dict(desc, phase='restart')
+                nv = len(self.violations)
+                self.judge(pre3, rec3, post3, env0, d3, faulty=False)
+                if torn:
+                    # the torn file is outside the model already (known finding); S-rules on it are not meaningful
+                    self.violations[nv:] = [v for v in self.violations[nv:] if v['property'] == 'C15' and v['rule'] in ('R1',)]
+                self.probe('restart_after_fault')
+        world.rmtree(self.root)
+
+    # ------------------------------------------------------------------------------- C14 twins
+    def env_twin(self, variant, pre, rec, post, t0):
+        """variant = {'env': {...}, 'expect': 'same'|'forced'|'probe'}"""
+        env = variant['env']
+        desc = {'env': env, 'faults': [], 'restart': False}
+        pre1, rec1, post1 = self.run_once(env, None)
+        expect = variant['expect']
+        if expect == 'probe':
+            same = snap_digest(post1) == snap_digest(post) and rec1['stdout_b'] == rec['stdout_b']
+            self.probe('env_probe_%s_%s' % (sorted(env.items())[0][1] if env else 'none', 'same' if same else 'differs'))
+            return
+        t1 = self.judge(pre1, rec1, post1, env, desc, faulty=False)
+        mode = self.cmd.mode()
+        base_force = self.force(self.env)
+        if expect == 'same':
+            if snap_digest(post1) != snap_digest(post) or rec1['stdout_b'] != rec['stdout_b'] or rec1['exit'] != rec['exit']:
+                self.vio('C14', 'Z3', 'environment %r changes the result (only the documented override may)' % (env,), desc, key={'mode': mode})
+            return
+        # expect == 'forced': T1 shows what minification produces; T0 (override off) must follow the size rule
+        if base_force or t0.get('invalid') or t0.get('fail_at') is not None or t1.get('fail_at') is not None:
+            return
+        pre_f, post0, post1f = files_of(pre), files_of(post), files_of(post1)
+        if mode == 'stdout':
+            src = self.cmd.stdin if self.cmd.stdin is not None else pre_f.get(self.resolve(self.cmd.paths[0]))
+            forced = rec1['stdout_b']
+            if src is None:
+                return
+            want = src if len(forced) > len(src) else forced
+            self.count_z2(src, forced, mode)
+            if rec['stdout_b'] != want:
+                self.vio('C14', 'Z2', 'stdout holds %d bytes; source %d, forced minified form %d: expected %s' % (
+                    len(rec['stdout_b']), len(src), len(forced), 'the source unchanged' if want is src else 'the minified form'), desc, key={'mode': mode})
+        elif mode == 'output':
+            out_rel = self.resolve(self.cmd.output)
+            src = self.cmd.stdin if self.cmd.stdin is not None else pre_f.get(self.resolve(self.cmd.paths[0]))
+            forced = post1f.get(out_rel)
+            if src is None or forced is None:
+                return
+            want = src if len(forced) > len(src) else forced
+            self.count_z2(src, forced, mode + ('-stdin' if self.cmd.stdin is not None else ''))
+            if post0.get(out_rel) != want:
+                self.vio('C14', 'Z2', '--output file holds %s bytes; source %d, forced minified form %d' % (
+                    len(post0.get(out_rel) or b''), len(src), len(forced)), desc, key={'mode': mode})
+        else:
+            counts = {}
+            for v in t0.get('visits', []):
+                counts[v['rp']] = counts.get(v['rp'], 0) + 1
+            opened = set(e.get('rp') for e in rec['events'] if e['c'] == 'open_w')
+            for rel, n in sorted(counts.items(), key=lambda kv: str(kv[0])):
+                if n != 1 or rel is None:
+                    continue
+                src, forced = pre_f.get(rel), post1f.get(rel)
+                if src is None or forced is None:
+                    continue
+                self.count_z2(src, forced, mode)
+                if len(forced) > len(src):
+                    if post0.get(rel) != src or rel in opened:
+                        self.vio('C14', 'Z2', 'in-place file %s: minified form (%d) is larger than the source (%d) but the file was %s' % (
+                            rel, len(forced), len(src), 'opened for writing' if post0.get(rel) == src else 'changed'), desc, key={'mode': mode})
+                elif post0.get(rel) != forced:
+                    self.vio('C14', 'Z2', 'in-place file %s: minified form (%d) fits but the file holds something else (%d bytes)' % (
+                        rel, len(forced), len(post0.get(rel) or b'')), desc, key={'mode': mode})
+
+    def count_z2(self, src, forced, mode):
+        if len(forced) > len(src):
+            self.probe('keep_path_taken[%s]' % mode)
+            self.probe('override_on_and_larger')
+        elif len(forced) == len(src):
+            self.probe('equal_size_case')
+        else:
+            self.probe('shrinks[%s]' % mode)
+        if len(src) == 0:
+            self.probe('empty_source')
+        if forced != src:
+            self.probe('z2_nontrivial')
+
+    # ------------------------------------------------------------------------------- probes
+    def world_probes(self, pre, rec, t0):
+        visits = t0.get('visits', [])
+        rps = [v['rp'] for v in visits]
+        if len(rps) != len(set(rps)):
+            self.probe('file_visited_twice')
+        if any(e[0] == 'l' for e in pre.values()):
+            self.probe('world_with_symlinks')
+        if self.cmd.output is not None and self.cmd.paths and self.cmd.paths[0] != '-' and \
+                self.resolve(self.cmd.output) == self.resolve(self.cmd.paths[0]):
+            self.probe('output_is_input')
+        if t0.get('fail_at') is not None:
+            n = len(t0.get('P') or [])
+            k = t0['fail_at']
+            self.probe('failing_file_' + ('first' if k == 0 else 'later'))
+            self.probe('failing_kind_' + str(visits[-1].get('why')))
+        for v in visits:
+            if v['res'] == 'keep':
+                self.probe('keep_visit')
+            p = v['path']
+            if p and not p.endswith(climodel.PY_SUFFIXES) and p != 'stdin':
+                self.probe('explicit_non_py_argument')
+        if any(k.endswith('/.py') or k == '.py' for k in pre):
+            self.probe('hidden_dot_py')
+        if any(v[0] == 'd' and k.endswith(climodel.PY_SUFFIXES) for k, v in pre.items()):
+            self.probe('dir_named_like_module')
+        if self.cmd.stdin is not None:
+            self.probe('stdin_mode')
+
+    def fault_probes(self, rec1, t0):
+        f = rec1['fired'][0]
+        self.probe('fault_' + f['ev'])
+        if rec1['crashed']:
+            self.probe('crash_fired')
+
+    def discriminate(self, pre, t0):
+        """S5: for every flag of the run, does removing that one flag change the model's output for this input?"""
+        srcs = []
+        pre_f = files_of(pre)
+        if self.cmd.stdin is not None:
+            srcs.append(self.cmd.stdin)
+        for v in t0.get('visits', []):
+            if v['rp'] is not None and pre_f.get(v['rp']) is not None:
+                srcs.append(pre_f[v['rp']])
+        srcs = srcs[:2]
+        for f in self.cmd.flags:
+            fl = [x for x in self.cmd.flags if x != f]
+            if climodel.is_invalid_combination(self.cmd.flags):
+                continue
+            kw2 = climodel.kwargs_documented(fl, self.cmd.preserve)
+            d = any(self.model.api(s, kw2) != self.model.api(s, self.kw) for s in srcs)
+            self.flag_discriminated[f] = self.flag_discriminated.get(f, 0) + (1 if d else 0)
+        for i, (o, val) in enumerate(self.cmd.preserve):
+            pr = self.cmd.preserve[:i] + self.cmd.preserve[i + 1:]
+            kw2 = climodel.kwargs_documented(self.cmd.flags, pr)
+            d = any(self.model.api(s, kw2) != self.model.api(s, self.kw) for s in srcs)
+            self.flag_discriminated[o] = self.flag_discriminated.get(o, 0) + (1 if d else 0)
+
+    # ------------------------------------------------------------------------------- subprocess cross-check
+    def subprocess_check(self, env0, pre, rec, post, t0):
+        """The same fault-free command as a real `python -m python_minifier` process with real pipes."""
+        import subprocess
+        if t0.get('fail_at') is not None and len(t0.get('P') or []) > 1:
+            return      # outcome depends on the kernel's listing order
+        self.fresh_tree()
+        env = dict(os.environ)
+        env.pop('PYMINIFY_FORCE_BEST_EFFORT', None)
+        for k, v in env0.items():
+            if v is None:
+                env.pop(k, None)
+            else:
+                env[k] = v
+        src = os.path.join(os.environ['VERIF_REPO'], 'src')
+        env['PYTHONPATH'] = src
+        argv = [a.replace('{ROOT}', self.root) for a in self.cmd.argv]
+        p = subprocess.Popen([sys.executable, '-S', '-m', 'python_minifier'] + argv, cwd=self.abs_cwd(), env=env,
+                             stdin=subprocess.PIPE, stdout=subprocess.PIPE, stderr=subprocess.DEVNULL)
+        out, _ = p.communicate(self.cmd.stdin if self.cmd.stdin is not None else b'')
+        post2 = world.snapshot(self.root)
+        self.stats['subprocess_crosschecks'] += 1
+        mode = self.cmd.mode()
+        ok = (p.returncode == 0) == (rec['exit'] == 0)
+        if mode == 'stdout':
+            ok = ok and out == rec['stdout_b']
+        else:
+            ok = ok and sorted(out.decode('utf-8', 'replace').split('\n')) == sorted(rec['stdout_t'].split('\n'))
+        multi = len(t0.get('P') or []) != len(set(v['rp'] for v in t0.get('visits', [])))
+        if not multi:
+            ok = ok and snap_digest(post2) == snap_digest(post)
+        if not ok:
+            self.notes.append('HARNESS subprocess cross-check disagrees: rc %s vs %s' % (p.returncode, rec['exit']))
+            self.stats['subprocess_mismatch'] = self.stats.get('subprocess_mismatch', 0) + 1
+
+
+def run_world_job(spec):
+    if 'batch' in spec:
+        return {'batch': [run_world_job(s) for s in spec['batch']]}
+    job = WorldJob(spec)
+    try:
+        job.run_all()
+    finally:
+        world.rmtree(job.root)
+    pre, rec, post, t0 = job.twin
+    summary = {
+        'exit': rec['exit'], 'exc': rec['exc'], 'mode': job.cmd.mode(), 'P': t0.get('P'),
+        'visits': [{'path': v['path'], 'res': v['res'], 'n_in': v.get('n_in'), 'n_out': v.get('n_out')} for v in t0.get('visits', [])],
+        'events': ['%s#%s %s' % (e['c'], e.get('n', e.get('op')), e.get('rp') if e.get('rp') is not None else '') for e in rec['events']][:60],
+        'invalid': t0.get('invalid'), 'tree_entries': len(pre), 'stdout_bytes': len(rec['stdout_b']),
+    }
+    return {
+        'violations': job.violations, 'notes': job.notes[:20], 'stats': job.stats, 'probes': job.probes,
+        'flag_discriminated': job.flag_discriminated, 'digest': job.digest.hexdigest(), 'twin': summary,
+        'model_api_calls': job.model.api_calls,
+    }
